@@ -57,6 +57,9 @@ HoldsPrefix(e, upto) ==
 Absent(kv) == kv.st = "nf" \/ (kv.kind = "int" /\ kv.st = "ok" /\ kv.v = "0")
                            \/ (kv.kind = "bytes" /\ kv.st = "ok" /\ kv.v = "")
 KeyOf(q, k) == {x \in Range(q) : x.k = k}
+\* the same key NAME may exist as an int key and as a byte key (stores with separate key spaces): a record is
+\* identified by name and kind
+SameKey(kv, s) == {d \in KeyOf(kv, s.k) : d.kind = s.kind}
 
 (* ---- clauses common to both operations ---- *)
 Common(e) ==
@@ -87,12 +90,12 @@ LogClauses(e) ==
 StableClauses(e) ==
      (IF \E d \in Range(e.dkv) : d.st = "err" THEN {"DestReadError"} ELSE {})
 \cup (IF e.err = "nil"
-      THEN (IF \E s \in Range(e.skv) : ~\E d \in KeyOf(e.dkv, s.k) : d.st = "ok" THEN {"StableMissing"} ELSE {})
-      \cup (IF \E s \in Range(e.skv) : \E d \in KeyOf(e.dkv, s.k) : d.st = "ok" /\ (d.v # s.v \/ d.kind # s.kind)
+      THEN (IF \E s \in Range(e.skv) : ~\E d \in SameKey(e.dkv, s) : d.st = "ok" THEN {"StableMissing"} ELSE {})
+      \cup (IF \E s \in Range(e.skv) : \E d \in SameKey(e.dkv, s) : d.st = "ok" /\ d.v # s.v
             THEN {"StableDiffers"} ELSE {})
       ELSE {})
 \cup (IF e.err = "canceled"
-      THEN (IF \E s \in Range(e.skv) : \E d \in KeyOf(e.dkv, s.k) : ~Absent(d) /\ (d.st # "ok" \/ d.v # s.v)
+      THEN (IF \E s \in Range(e.skv) : \E d \in SameKey(e.dkv, s) : ~Absent(d) /\ (d.st # "ok" \/ d.v # s.v)
             THEN {"StableDiffers"} ELSE {})
       ELSE {})
 
